@@ -292,6 +292,8 @@ Definition sec_join_start (c : jconfig) (t : nat) (th : jthread) (k par : nat) :
 Definition sec_join_par (v : jvariant) (c : jconfig) (t : nat) (th : jthread) : option jconfig :=
   let k := j_cur th in
   let par := j_par th in
+  (* p.Join(p.Answer()): parent.mu.Lock() on the mutex this thread holds never returns *)
+  if Nat.eqb par k then None else
   if negb (free c par) then None else
   let p := getp c k in
   let q := getp c par in
@@ -390,19 +392,22 @@ Definition sec_jcall_start (c : jconfig) (t : nat) (th : jthread) (s : Z) : opti
          end
   end.
 
-(* ReleaseClients: flag on the receiver, then walk to the end of the chain *)
-Definition sec_rel_walk (c : jconfig) (t : nat) (th : jthread) (k0 : nat) : option jconfig :=
+(* ReleaseClients: flag on the receiver (first section only: j_waitx = 0), then walk to the end of the chain;
+   j_waitx = 1 afterwards: this call owes the chain's last promise one decrement of clientsRefs *)
+Definition sec_rel_walk (c : jconfig) (t : nat) (th : jthread) : option jconfig :=
   let k := j_cur th in
   if negb (free c k) then None else
   let p := getp c k in
-  if Nat.eqb k k0 && p_relflag p then Some (sett c t (jfinish th ONoop)) else
-  let p := if Nat.eqb k k0 then sp_relflag p true else p in
+  let first := Nat.eqb (j_waitx th) 0 in
+  if first && p_relflag p then Some (sett c t (jfinish th ONoop)) else
+  let p := if first then sp_relflag p true else p in
   match p_next p with
-  | Some q => Some (sett (setp c k p) t (sj_cur th q))
+  | Some q => Some (sett (setp c k p) t (sj_waitx (sj_cur th q) 1))
   | None =>
     let rf := p_crefs p - 1 in
-    if 0 <? rf then Some (sett (setp c k (sp_crefs p rf)) t (jfinish th ONoop))
-    else Some (sett (setp c k (sp_hastable (sp_clients (sp_crefs p rf) []) false)) t (sj_rest (jgoto th QRel) (rows_of p)))
+    if 0 <? rf then Some (sett (setp c k (sp_crefs p rf)) t (sj_waitx (jfinish th ONoop) 2))
+    else Some (sett (setp c k (sp_hastable (sp_clients (sp_crefs p rf) []) false)) t
+                    (sj_waitx (sj_rest (jgoto th QRel) (rows_of p)) 2))
   end.
 
 Definition sec_jrelease_proxy (c : jconfig) (t : nat) (th : jthread) : option jconfig :=
@@ -442,7 +447,7 @@ Definition jstep_thread (v : jvariant) (c : jconfig) (t : nat) (th : jthread) : 
     | JSend k p _ => Some (sett c t (sj_path (sj_cur (jgoto th QTrav) k) p))
     | JClient k _ _ => Some (sett c t (sj_cur (jgoto th QTrav) k))
     | JCall s _ => sec_jcall_start c t th s
-    | JRelease k => if p_resclosed (getp c k) then Some (sett c t (sj_cur (jgoto th QRelWalk) k)) else None
+    | JRelease k => if p_resclosed (getp c k) then Some (sett c t (sj_waitx (sj_cur (jgoto th QRelWalk) k) 0)) else None
     | JWait k => if p_resclosed (getp c k) then Some (sett c t (sj_cur (jgoto th QWaitWalk) k)) else None
     | JUngate n => Some (sett (sjgates c (n :: jgates c)) t (jfinish th ORet))
     end
@@ -482,7 +487,7 @@ Definition jstep_thread (v : jvariant) (c : jconfig) (t : nat) (th : jthread) : 
     let k := j_cur th in
     if negb (free c k) then None
     else Some (sett (setp c k (sp_mu (getp c k) (Some t))) t (jgoto th QJPar))
-  | QRelWalk => match j_op th with JRelease k0 => sec_rel_walk c t th k0 | _ => None end
+  | QRelWalk => sec_rel_walk c t th
   | QRel => sec_jrelease_proxy c t th
   | QRelWait => if jx_done (getx c (j_waitx th)) then Some (sett c t (jgoto th QRel)) else None
   | QWaitWalk => sec_wait_walk c t th
